@@ -69,7 +69,8 @@ pub fn roundtrip<T: CanonicalSerialize + CanonicalDeserialize>(ctx: &mut Ctx, wh
             (0..bytes.len()).collect()
         } else {
             let mut v: Vec<usize> = vec![0, 1, 7, 8, 9, bytes.len() - 1, bytes.len() - 2, bytes.len() / 2];
-            for _ in 0..40 {
+            // megabyte artefacts: every cut costs a full parse
+            for _ in 0..(if bytes.len() > (1 << 20) { 2 } else { 40 }) {
                 v.push(below(rng, bytes.len()));
             }
             v
@@ -226,6 +227,7 @@ fn case<S: Scheme>(ctx: &mut Ctx, rng: &mut ChaCha20Rng) {
 }
 
 pub fn run(ctx: &mut Ctx) {
+    crate::schemes::set_custom_params(true);
     for_each_scheme!(ctx, S, {
         let n = ctx.n(60, 1200) / <S as Scheme>::WEIGHT.max(1);
         ctx.run_cases(<S as Scheme>::NAME, n.max(4), |ctx, _i, rng| case::<S>(ctx, rng));
